@@ -256,6 +256,7 @@ def run(tier):
     PD.run()
     from harness import probes
     probes.late_conversion_round_trip(R)
+    probes.flatten_probe(R)
     T1 = "univ * sopts * ty * value"
     bad, errs = core.run_coq_shards("C05_model", P.header() + HEADER_EXTRA, items,
                                     "(fun c : " + T1 + " => let '(u, o, t, v) := c in roundtrip_case u o 60 40 t v)",
